@@ -99,8 +99,8 @@ AgreeRawOk(e) == ~e.panic /\ ~e.check /\ ~e.compile /\ ~e.run
 (*       `after` if the link was replaced by something else), "mixedutf8" (name mixing 1- to 4-byte characters),                     *)
 (*       "absent-pipegone" (stdout is a pipe whose reader left after the first message)                                              *)
 RegularDest == {"absent", "file", "longer", "nonutf8", "longutf8", "absent-outfull", "file-outfull", "absent-msgfail", "file-msgfail",
-                "symlink", "mixedutf8", "absent-pipegone"}
-Unwritable  == {"devfull", "nodir", "absent-fsize", "file-fsize", "symlink-fsize"}
+                "symlink", "mixedutf8", "absent-pipegone", "hardlink"}
+Unwritable  == {"devfull", "nodir", "absent-fsize", "file-fsize", "symlink-fsize", "hardlink-fsize"}
 AtomicOk(e) ==
   LET ok == Accepts(e.ast, e.stack) IN
   /\ (e.code = 0 => /\ ok /\ e.dest \in RegularDest /\ e.after = ObjectBytes(e.ast))
@@ -126,6 +126,9 @@ GateOk(e) ==
   /\ (~e.uses => e.code = 0 /\ e.same)
 (* opcode 0xD reached at run time without the flag: exit status 1 and a message naming the feature - whatever stdout is connected to *)
 GateRunOk(e) == e.code = 1 /\ e.names
+(* `eval` of one of the four mnemonics: refused, naming the feature, and without effect unless the flag is given (then it executes: R7 moves) *)
+GateEvalOk(e) == /\ e.code = 0
+                 /\ IF e.stack THEN e.r7 # 65023 ELSE (e.names /\ e.r7 = 65023)
 (* the value of -f/--features: comma separated, empty items skipped, only "stack", not twice *)
 RECURSIVE SplitComma(_, _, _)
 SplitComma(s, cur, acc) ==
@@ -181,6 +184,7 @@ Explains(e) ==
     [] e.ev = "compile_sys" -> SysOk(e)
     [] e.ev = "gate"      -> GateOk(e)
     [] e.ev = "gate_run"  -> GateRunOk(e)
+    [] e.ev = "gate_eval" -> GateEvalOk(e)
     [] e.ev = "featarg"   -> FeatArgOk(e)
     [] OTHER -> FALSE
 
